@@ -23,8 +23,8 @@ var c19FlowsJSON []byte
 
 func init() {
 	register(&Check{ID: "C19", Run: runC19, Expl: oblig.Explanation{
-		Text: "Static check that the offset and metadata queries copy, and do not rearrange, what the brokers report. (R1) field-flow table (ref/fieldflows.json, reviewed by reading): for every listed destination — fields of the public result structs and of the protocol request structs built by Client.ListOffsets, OffsetFetch, OffsetCommit, Metadata, ConsumerOffsets, the legacy Conn metadata readers and listoffsets.Request.Split — the set of value sources found by backward provenance over SSA equals the reviewed set (e.g. OffsetFetchPartition.CommittedOffset ← response Topics[].Partitions[].CommittedOffset, .Error ← makeError(…ErrorCode), Partition.Leader ← brokers[LeaderID]); sources of selected switch-assigned fields are listed with their guards. A swapped, dropped or constant-replaced mapping changes a set. (R2) every map entry that accumulates a list (ListOffsets result, Merge's per-topic lists) is updated as m[k] = append(m[k], …) with the same key on both sides, so entries merged earlier are kept. (R3) listoffsets Split emits one single-topic single-partition request per requested partition and one message per request; Merge indexes requests, results and restored timestamps with the same position, fabricates error entries only for the partitions of the failed request and continues, overrides the timestamp only when the (topic, partition) was requested, and fails as a whole iff every sub-request failed. (R4) Conn.Seek: the offsets come from one ReadOffsets call on every checked path, SeekStart adds to first, SeekEnd subtracts from last, SeekCurrent adds to the current offset, and OffsetOutOfRange is returned iff offset < first or offset > last with those same values; ReadOffsets pairs first with ReadFirstOffset and last with ReadLastOffset, which send -2 and -1. (R5) Conn.readOffset returns the partition's Offset and turns a non-zero ErrorCode into an error; Conn.ReadPartitions sends nil (all topics) iff no topics were given and the connection has none, and both legacy request encoders write -1 exactly for nil; the legacy readers report a topic error only for the connection's topic. Not decided: that the broker's answer is correct; value-level equality for every cluster state; routing (C12) and wire layout (C04) are separate properties.",
-		Rule: "one obligation per destination field, accumulating map update, and structural fact",
+		Text:    "Static check that the offset and metadata queries copy, and do not rearrange, what the brokers report. (R1) field-flow table (ref/fieldflows.json, reviewed by reading): for every listed destination — fields of the public result structs and of the protocol request structs built by Client.ListOffsets, OffsetFetch, OffsetCommit, Metadata, ConsumerOffsets, the legacy Conn metadata readers and listoffsets.Request.Split — the set of value sources found by backward provenance over SSA equals the reviewed set (e.g. OffsetFetchPartition.CommittedOffset ← response Topics[].Partitions[].CommittedOffset, .Error ← makeError(…ErrorCode), Partition.Leader ← brokers[LeaderID]); sources of selected switch-assigned fields are listed with their guards. A swapped, dropped or constant-replaced mapping changes a set. (R2) every map entry that accumulates a list (ListOffsets result, Merge's per-topic lists) is updated as m[k] = append(m[k], …) with the same key on both sides, so entries merged earlier are kept. (R3) listoffsets Split emits one single-topic single-partition request per requested partition and one message per request; Merge indexes requests, results and restored timestamps with the same position, fabricates error entries only for the partitions of the failed request and continues, overrides the timestamp only when the (topic, partition) was requested, and fails as a whole iff every sub-request failed. (R4) Conn.Seek: the offsets come from one ReadOffsets call on every checked path, SeekStart adds to first, SeekEnd subtracts from last, SeekCurrent adds to the current offset, and OffsetOutOfRange is returned iff offset < first or offset > last with those same values; ReadOffsets pairs first with ReadFirstOffset and last with ReadLastOffset, which send -2 and -1. (R5) Conn.readOffset returns the partition's Offset and turns a non-zero ErrorCode into an error; Conn.ReadPartitions sends nil (all topics) iff no topics were given and the connection has none, and both legacy request encoders write -1 exactly for nil; the legacy readers report a topic error only for the connection's topic. Not decided: that the broker's answer is correct; value-level equality for every cluster state; routing (C12) and wire layout (C04) are separate properties.",
+		Rule:    "one obligation per destination field, accumulating map update, and structural fact",
 		Trusted: []string{"go/ssa", "value provenance (internal/an/flow.go)", "expression shapes", "ref/fieldflows.json (reviewed: destination and source names agree or the pair is in the rename list)"},
 	}})
 }
@@ -62,12 +62,12 @@ func flowDesc(v ssa.Value, depth int) string {
 		case "call":
 			c, _ := o.Val.(*ssa.Call)
 			if c != nil && depth < 3 {
-				if f := c.Call.StaticCallee(); f != nil && load.InModule(f) && c19Converters[f.Name()] {
+				if f := c.Call.StaticCallee(); f != nil && load.InModule(f) && c19Converters[an.RefFuncName(f)] {
 					var as []string
 					for _, a := range c.Call.Args {
 						as = append(as, flowDesc(a, depth+1))
 					}
-					s = f.Name() + "(" + strings.Join(as, ", ") + ")" + o.Path
+					s = an.RefFuncName(f) + "(" + strings.Join(as, ", ") + ")" + o.Path
 					break
 				}
 			}
@@ -458,7 +458,7 @@ func c19SplitMerge(p *load.Program, r *oblig.Report) {
 	// (b) the per-result loop: Result(results[i]); failure fabricates entries from requests[i]; success restores from timestamps[i]
 	var resCall *ssa.Call
 	an.EachInstr(merge, func(ins ssa.Instruction) {
-		if c, ok := ins.(*ssa.Call); ok && c.Call.StaticCallee() != nil && c.Call.StaticCallee().Name() == "Result" {
+		if c, ok := ins.(*ssa.Call); ok && c.Call.StaticCallee() != nil && an.RefFuncName(c.Call.StaticCallee()) == "Result" {
 			if clean(an.ShapeCanon(c.Call.Args[0])) == "results[idx(results)]" {
 				resCall = c
 			}
@@ -529,7 +529,7 @@ func c19SplitMerge(p *load.Program, r *oblig.Report) {
 	r.Check(okAll, rule, "listoffsets.Merge fails as a whole only when every sub-request failed", p.Pos(merge.Pos()), "errors > 0 ∧ errors == len(results)", g)
 	// the failure branch continues with the next result
 	okCont := false
-	for _, b := range merge.Blocks {
+	for _, b := range an.Blocks(merge) {
 		for _, ins := range b.Instrs {
 			if bo, ok := ins.(*ssa.BinOp); ok && bo.Op == token.ADD && hasCond(selConds(bo), errCond) {
 				if k, isK := an.ConstInt(bo.Y); isK && k == 1 {
@@ -790,7 +790,7 @@ func c19Conn(p *load.Program, r *oblig.Report) {
 			an.EachInstr(f, func(ins ssa.Instruction) {
 				switch x := ins.(type) {
 				case *ssa.Call:
-					if x.Call.StaticCallee() != nil && x.Call.StaticCallee().Name() == "writeListOffsetRequestV1" {
+					if x.Call.StaticCallee() != nil && an.RefFuncName(x.Call.StaticCallee()) == "writeListOffsetRequestV1" {
 						var as []string
 						for _, a := range x.Call.Args[1:] {
 							as = append(as, clean(an.Shape(a)))
@@ -804,7 +804,7 @@ func c19Conn(p *load.Program, r *oblig.Report) {
 						}
 					}
 				case *ssa.Store:
-					if fv, ok := x.Addr.(*ssa.FreeVar); ok && fv.Name() == "offset" {
+					if fv, ok := x.Addr.(*ssa.FreeVar); ok && an.FreeVarName(fv) == "offset" {
 						s := clean(an.Shape(x.Val))
 						g := clean(strings.Join(selConds(x), " ∧ "))
 						okOff = strings.HasSuffix(s, ".Offset") && strings.Contains(g, ".ErrorCode == 0") || strings.HasSuffix(s, ".Offset") && strings.Contains(g, "(0 == ")
@@ -898,7 +898,7 @@ func c19Conn(p *load.Program, r *oblig.Report) {
 				return
 			}
 			g := clean(strings.Join(selConds(c), " ∧ "))
-			switch c.Call.StaticCallee().Name() {
+			switch an.RefFuncName(c.Call.StaticCallee()) {
 			case "writeArrayLen":
 				if k, isK := an.ConstInt(c.Call.Args[1]); isK && k == -1 && strings.HasPrefix(g, "(nil == ") {
 					okNil = true
